@@ -190,6 +190,7 @@ def plan(prop, tier):
               B("A", 3, runs=runs_windows, configs=cfg_one_method, sample=500 if q else 5000),
               B("B", 3, runs=runs_windows, configs=cfg_one_method, sample=300 if q else 3000),
               B("Z", 3 if q else 4, runs=runs_windows, configs=cfg_one_method, sample=500 if q else 8000),
+              B("C", 3, runs=runs_windows, configs=cfg_one_method, sample=400 if q else 6000),   # mixed UTC offsets around new year (class of known finding D8 included)
               B("Y", 10, sim=60 if q else 800, depth=10, runs=runs_windows, configs=cfg_one_method)]
     else:
         raise common.MachineryError(f"no ledger plan for {prop}")
@@ -303,10 +304,29 @@ def make_jobs(prop, tier, rnd):
     return mc_plan, jobs, genstats
 
 
-def judge(prop, traces, verdicts):
-    """split verdicts into violations of `prop`, witnesses, clauses of other properties, machinery problems"""
+def known_class_ids(prop):
+    """ids of the findings listed in known_findings.json for this property that are identified as a class by the specification (clauses K.<prop>.<id>.*)"""
+    return {f["id"] for f in common.load_known_findings().get("findings", []) if f.get("property") == prop and f.get("class_clause")}
+
+
+def judge(prop, traces, verdicts, known_hits=None):
+    """split verdicts into violations of `prop`, witnesses, clauses of other properties, machinery problems.
+    A clause K.<prop>.<id>.<text> marks a member of a listed finding's class: it counts as that known finding if the file lists <id>,
+    and as an ordinary violation <prop>.<text> otherwise (the file, not the specification, decides what is known)."""
     viol, nontrivial, other, structural = [], 0, {}, []
+    listed = known_class_ids(prop)
     for i, v in enumerate(verdicts):
+        v2 = []
+        for c, l in v:
+            if c.startswith(f"K.{prop}."):
+                fid, text = c.split(".", 3)[2:4]
+                if fid in listed:
+                    if known_hits is not None:
+                        known_hits[fid] = known_hits.get(fid, 0) + 1
+                    continue
+                c = f"{prop}.{text}"
+            v2.append((c, l))
+        v = v2
         mine = [(c, l) for c, l in v if c.startswith(prop + ".")]
         if any(c.startswith(f"W.{prop}.") for c, _ in v):
             nontrivial += 1
